@@ -450,7 +450,31 @@ def subdivide_edges(draw, mesh, max_splits=3):
 
 
 @st.composite
-def any_mesh(draw, max_pts=24, partial=True, structured=True, voronoi=True, renumber=True):
+def tiny_patch_mesh(draw, renumber=True):
+    """High-resolution regional patch: nx x ny nodes, cells of 1e-3 .. 0.5 degrees, quads, triangles or both."""
+    nx, ny = draw(st.integers(3, 5)), draw(st.integers(3, 5))
+    d = draw(st.sampled_from([1e-3, 1e-2, 0.1, 0.5]))
+    lon0 = draw(st.sampled_from([10.0, 179.9, -0.002, 100.0]))
+    lat0 = draw(st.sampled_from([0.0, 40.0, -70.0, 85.0]))
+    tri = draw(st.sampled_from(["quad", "tri", "mixed"]))
+    nodes = [(((lon0 + i * d + 180.0) % 360.0) - 180.0, lat0 + j * d * 0.8) for j in range(ny) for i in range(nx)]
+    faces = []
+    for j in range(ny - 1):
+        for i in range(nx - 1):
+            a, b, c, e = j * nx + i, j * nx + i + 1, (j + 1) * nx + i + 1, (j + 1) * nx + i
+            if tri == "quad" or (tri == "mixed" and (i + j) % 2 == 0):
+                faces.append([a, b, c, e])
+            else:
+                faces += [[a, b, c], [a, c, e]]
+    mesh = finish_mesh(draw, nodes, faces, renumber)
+    mesh["family"] = "tiny-patch"
+    return mesh
+
+
+@st.composite
+def any_mesh(draw, max_pts=24, partial=True, structured=True, voronoi=True, renumber=True, tiny=False):
+    if tiny and draw(st.integers(0, 6)) == 0:
+        return draw(tiny_patch_mesh(renumber))
     opts = ["hull", "hull", "hull"]
     if voronoi:
         opts.append("voronoi")
